@@ -2206,6 +2206,17 @@ def check_C13(tier, seed, replay=None):
     # known finding F32: -optimize-grammar inlines every rule without references wherever it is used, so on such a chain the
     # optimised grammar doubles with every rule: out of memory (a Go crash trace) instead of a parser or a diagnostic
     texts.append(("kf32", dag(34, b"@ / @")))
+    # rule names, labels and display names beyond ASCII, with every way of naming rules on the command line (names that exist,
+    # that do not, that differ in one letter / accent / case, empty names): diagnostics that quote or compare names
+    for names_ in (["R\u00e8gle", "D\u00e9but", "Fin"], ["\u00c9t\u00e9", "\u00e9t\u00e9", "Ete"], ["\u03a9m\u00e9ga", "\u0394", "A\u00e9\u00e9\u00e9\u00e9B"], ["Entr\u00e9", "Sortie\u00e9", "X"]):
+        texts.append(("uni", head + ("%s <- l\u00e9:%s '\u00e9' %s* / 'x'\n%s \"nom \u00e9\" <- [\u00e0-\u00ff]+\n%s <- '\u20ac' { return string(c.text), nil }\n" % (
+            names_[0], names_[1], names_[2], names_[1], names_[2])).encode()))
+    uni_flags = []
+    for nm in ["R\u00e8gle", "Regle", "R\u00e8gl", "D\u00e9but,Fin", "D\u00e9bu,Fin", "r\u00e8gle", "\u00e9t\u00e9", "Ete,\u00c9t\u00e9,Et\u00e9", "\u0394,\u03a9", "Entr\u00e9", "Entre", "Sortie", "", ",", "X,,X", "\u00e9", "A\u00e9\u00e9\u00e9B"]:
+        for pre in ([], ["-optimize-grammar"], ["-support-left-recursion", "-optimize-parser"]):
+            uni_flags.append(pre + ["-alternate-entrypoints", nm])
+    for rn in ["p\u00e9", "\u00e9", "c", "p", "", "x y"]:
+        uni_flags.append(["-receiver-name", rn])
     # known finding F39: the front-end is a recursive-descent parser without a depth limit: 30 000 nested parentheses (a 60 KB
     # text) exhaust the Go stack (fatal error, a crash trace) instead of a parser or a diagnostic; 10 000 levels still pass
     texts.append(("kf39", head + b"Deep <- " + b"(" * 30000 + b"'a'" + b")" * 30000 + b"\n"))
@@ -2221,7 +2232,7 @@ def check_C13(tier, seed, replay=None):
         pth = os.path.join(d, "t%d.peg" % i)
         with open(pth, "wb") as f:
             f.write(t)
-        nf = 1 if kind in ("bytes", "kf32", "kf39") else (4 if tier == "quick" else 8)
+        nf = 1 if kind in ("bytes", "kf32", "kf39") else (len(uni_flags) if kind == "uni" else (4 if tier == "quick" else 8))
         for j in range(nf):
             if kind == "sweep":
                 fl = [["-optimize-basic-latin"], ["-optimize-basic-latin", "-optimize-parser"], ["-optimize-grammar", "-optimize-basic-latin"], [],
@@ -2235,6 +2246,8 @@ def check_C13(tier, seed, replay=None):
                 fl = ["-optimize-grammar"]
             elif kind == "kf39":
                 fl = ["-x"]
+            elif kind == "uni":
+                fl = list(uni_flags[j])
             elif kind == "bytes":
                 fl = [] if i % 3 else ["-optimize-grammar"]
             elif j == 0:
@@ -2407,7 +2420,9 @@ def c09_groups(seed, n, gi0=1):
     clss = [((F.A,), (), False, False), ((F.B,), (), False, False), ((F.A,), (), True, False), ((F.B,), (), True, False),
             ((), (F.A, F.B), False, False), ((F.UA,), (), False, True), ((F.A,), (), True, True), ((F.B, 99), (), False, False),
             ((F.A, F.B, 99), (), False, False), ((F.A, F.B, 99, F.UA, 100), (), False, False), ((F.A, F.UA, 99), (), False, True),
-            ((95,), (65, 122), False, True), ((94, 95), (65, 122), False, True), ((95, F.A), (F.UA, 90), False, True), ((F.B,), (F.A, 99), False, False)]    # members inside / outside the ranges as written vs as folded
+            ((95,), (65, 122), False, True), ((94, 95), (65, 122), False, True), ((95, F.A), (F.UA, 90), False, True), ((F.B,), (F.A, 99), False, False),    # members inside / outside the ranges as written vs as folded
+            ((), (F.A, 99), True, False), ((100,), (F.A, F.B), True, False), ((), (F.UA, 67), True, True), ((F.B,), (F.A, F.A), True, False),
+            ((), (F.A, 99), True, False), ((99,), (F.A, F.B), True, True)]     # inverted classes that exclude a rune through a RANGE (next to a literal of that rune)
     for i in range(n):
         g = Gram(gi0 + i)
         g.labpool, g.labrng = ["k", "v"], rng        # the same label name in the caller and in an inlined rule
